@@ -160,6 +160,17 @@ def build(tier):
                        ('post', {'a0': swapped(a, n, p_, q_, 'elems')}), rule='K1 copy provenance')
         if n == 4:
             h.root('determinant__' + m, gf + '(a: &%s) -> S' % Tm, 'a.determinant()', ('value', A.det(a)))
+        # by-index access to columns: m[c] is column c, m[c][r] its r-th component, an out-of-range column or row index panics
+        Tv = '%s<S>' % VEC[n][0]
+        for c in range(n):
+            post = [list(col) for col in a]
+            post[c] = sv('a1', n)
+            h.root('index_col__%s__%d' % (m, c), '<S: Copy>(a: &%s) -> %s' % (Tm, Tv), 'a[%d]' % c, ('value', a[c]), rule='K1 copy provenance')
+            h.root('index_col_mut__%s__%d' % (m, c), '<S>(a: &mut %s, v: %s)' % (Tm, Tv), 'a[%d] = v' % c, ('post', {'a0': post}), rule='K1 copy provenance')
+            h.root('index_col_row__%s__%d_%d' % (m, c, n), '<S: Copy>(a: &%s) -> S' % Tm, 'a[%d][%d]' % (c, n), ('panic',))
+        h.root('index_col__%s__%d' % (m, n), '<S: Copy>(a: &%s) -> %s' % (Tm, Tv), 'a[%d]' % n, ('panic',))
+        h.root('index_col_mut__%s__%d' % (m, n), '<S>(a: &mut %s, v: %s)' % (Tm, Tv), 'a[%d] = v' % n, ('panic',))
+        h.root('index_col__%s__big' % m, '<S: Copy>(a: &%s) -> %s' % (Tm, Tv), 'a[usize::MAX]', ('panic',))
         h.root('as_ptr__' + m, '<S: BaseFloat>(a: &%s) -> *const S' % Tm, 'Matrix::as_ptr(a)', ('ref', 0, 1, [a[0][0]]))
         h.root('as_mut_ptr__' + m, '<S: BaseFloat>(a: &mut %s) -> *mut S' % Tm, 'Matrix::as_mut_ptr(a)', ('ref', 0, 1, [a[0][0]]))
         for c in range(n):
